@@ -70,9 +70,10 @@ theorem J_step (s : Bnd α) (t : Nat) (ev : Ev α) (h : J s.b) : J (Bnd.mach.ste
 end Bnd
 
 namespace Whn
+theorem J_onEnd (s : Whn α) (e) (h : J s.b) : J (onEnd s e).b := J_outerEnd _ _ (J_winEnd _ _ _ h)
 theorem J_createClosing (r : Option Nat) (pool : Nat) (s : Whn α) (h : J s.b) : J (createClosing r pool s).b := by
   unfold createClosing; simp only []; split
-  · exact J_outerEnd _ _ h
+  · exact J_outerEnd _ _ (J_winEnd _ _ _ h)
   · have key : ∀ b1 : Base α, J b1 →
         J (if s.calls < pool then (if b1.rcDisposed then (b1.subscribe (s.calls + 1)).unsub (s.calls + 1) else b1.subscribe (s.calls + 1)) else b1) := by
       intro b1 h1
@@ -86,7 +87,6 @@ theorem J_createClosing (r : Option Nat) (pool : Nat) (s : Whn α) (h : J s.b) :
     · simp only [hc, if_false]; exact key _ h
 theorem J_init (r : Option Nat) (pool t0 : Nat) : J (Whn.init (α := α) r pool t0).b :=
   J_createClosing _ _ _ (J_subscribe _ _ (J_open _ (J_empty t0)))
-theorem J_onEnd (s : Whn α) (e) (h : J s.b) : J (onEnd s e).b := J_outerEnd _ _ (J_winEnd _ _ _ h)
 theorem J_onClose (r : Option Nat) (pool : Nat) (s : Whn α) (h : J s.b) : J (onClose r pool s).b :=
   J_createClosing _ _ _ (J_open _ (J_winEnd _ _ _ h))
 theorem J_step (r : Option Nat) (pool : Nat) (s : Whn α) (t : Nat) (ev : Ev α) (h : J s.b) :
